@@ -24,20 +24,25 @@ Definition form_ok (i : cn_inst) (F : list slot) : bool :=
 
 (* ---- documented objective of an active set ---- *)
 Definition sumq {A} (f : A -> Q) (l : list A) : Q := qsum (map f l).
-Definition errg_of (F : form) (rc : str * (Q * Q)) : Q := (fst (snd rc) - sumq (gcoef (fst rc)) F)%Q.
-Definition err_of (F : form) (rc : str * (Q * Q)) : Q :=
-  let c := snd rc in
-  ((fst c - snd c) / scale_of c - sumq (fun st => (gcoef (fst rc) st - pcoef (fst rc) st) / scale_of c) F)%Q.
+Definition sumz {A} (f : A -> Z) (l : list A) : Z := zsum (map f l).
+Definition errg_gp (rc : str * (Q * Q)) (gp : Z * Z) : Q := (fst (snd rc) - inZ (fst gp))%Q.
+Definition err_gp (rc : str * (Q * Q)) (gp : Z * Z) : Q :=
+  let c := snd rc in (((fst c - snd c) - inZ (fst gp - snd gp)) / scale_of c)%Q.
+Definition copies (F : form) (rc : str * (Q * Q)) : Z * Z := (sumz (gcopies (fst rc)) F, sumz (pcopies (fst rc)) F).
+Definition errg_of (F : form) (rc : str * (Q * Q)) : Q := errg_gp rc (copies F rc).
+Definition err_of (F : form) (rc : str * (Q * Q)) : Q := err_gp rc (copies F rc).
 Definition in_bounds (i : cn_inst) (x : Q) : bool :=
   Qleb (- p_cn_max (i_par i)) x && Qleb x (p_cn_max (i_par i)).
 Definition bounds_ok (i : cn_inst) (F : form) : bool :=
   forallb (fun rc => in_bounds i (errg_of F rc) && in_bounds i (err_of F rc)) (used_cov i).
+(* sums are reduced after every addition (the value is the plain sum; this keeps vm_compute fast) *)
+Definition sumr {A} (f : A -> Q) (l : list A) : Q := fold_right (fun x acc => Qred (f x + acc)) 0%Q l.
 Definition diff_cost (i : cn_inst) (F : form) : Q :=
-  sumq (fun rc => diff_coeff i * pce_coeff i (fst rc) * Qabs' (err_of F rc))%Q (used_cov i).
+  (diff_coeff i * sumr (fun rc => pce_coeff i (fst rc) * Qabs' (err_of F rc)) (used_cov i))%Q.
 Definition fit_cost (i : cn_inst) (F : form) : Q :=
-  sumq (fun rc => fit_coeff i * Qabs' (errg_of F rc))%Q (used_cov i).
+  (fit_coeff i * sumr (fun rc => Qabs' (errg_of F rc)) (used_cov i))%Q.
 Definition pars_cost (c : consts) (i : cn_inst) (F : form) : Q :=
-  sumq (fun st => p_cn_pars (i_par i) * penalty c i (fst (fst st)))%Q F.
+  (p_cn_pars (i_par i) * sumr (fun st => penalty c i (fst (fst st))) F)%Q.
 Definition form_objective (c : consts) (i : cn_inst) (F : form) : Q :=
   (diff_cost i F + fit_cost i F + pars_cost c i F)%Q.
 
@@ -48,21 +53,53 @@ Fixpoint prefixes {A} (l : list A) : list (list A) :=
   [] :: match l with [] => [] | x :: t => map (cons x) (prefixes t) end.
 Fixpoint product {A} (ls : list (list (list A))) : list (list A) :=
   match ls with [] => [[]] | l :: t => flat_map (fun a => map (app a) (product t)) l end.
+Definition candidates_of {X} (comp : list X) (extras : list (list X)) (pseudo : list X) : list (list X) :=
+  let ex := product (map prefixes extras) in
+  let ps := prefixes pseudo in
+  flat_map (fun p => flat_map (fun e => map (fun q => fst p :: snd p :: e ++ q) ps) ex) (pairs comp).
 Definition extras_of (i : cn_inst) (c : config) : form :=
   map (fun k => ((cf_name c, k), weaken (cf_cn c))) (zrange 1 (i_max_cn i)).
+Definition complete_structs (i : cn_inst) : form := filter (fun st => is_complete (fst st)) (structures i).
+Definition default_extras (i : cn_inst) : list form :=
+  map (extras_of i) (filter (fun c => is_default (cf_kind c)) (kept i)).
 Definition candidates (i : cn_inst) : list form :=
-  let comp := filter (fun st => is_complete (fst st)) (structures i) in
-  let ex := product (map (fun c => prefixes (extras_of i c)) (filter (fun c => is_default (cf_kind c)) (kept i))) in
-  let ps := prefixes (pseudo_slots i) in
-  flat_map (fun p => flat_map (fun e => map (fun q => fst p :: snd p :: e ++ q) ps) ex) (pairs comp).
+  candidates_of (complete_structs i) (default_extras i) (pseudo_slots i).
 Definition forms (i : cn_inst) : list form :=
   filter (fun F => form_ok i (map fst F) && bounds_ok i F) (candidates i).
-Definition scored (c : consts) (i : cn_inst) : list (Q * form) :=
-  map (fun F => (Qred (form_objective c i F), F)) (forms i).
+Definition scored (c : consts) (i : cn_inst) : list (Q * list slot) :=
+  map (fun F => (Qred (form_objective c i F), map fst F)) (forms i).
+
+(* the same list computed with every structure's copy numbers looked up once (what the harness evaluates;
+   CnProofs.scored_fast_eq : scored_fast c i = scored c i) *)
+Definition cstruct := (slot * (list (Z * Z) * Q))%type.     (* slot, (gene, pseudogene) copies per used region, penalty *)
+Definition compile (c : consts) (i : cn_inst) (st : structure) : cstruct :=
+  (fst st, (map (fun rc => (gcopies (fst rc) st, pcopies (fst rc) st)) (used_cov i), penalty c i (fst (fst st)))).
+Fixpoint vadd (a b : list (Z * Z)) : list (Z * Z) :=
+  match a, b with
+  | (x, y) :: a', (u, v) :: b' => (x + u, y + v) :: vadd a' b'
+  | _, _ => []
+  end.
+Definition vsum (i : cn_inst) (F : list cstruct) : list (Z * Z) :=
+  fold_right (fun st acc => vadd (fst (snd st)) acc) (map (fun _ => (0, 0)) (used_cov i)) F.
+Definition fast_bounds_ok (i : cn_inst) (v : list (Z * Z)) : bool :=
+  forallb (fun x => in_bounds i (errg_gp (fst x) (snd x)) && in_bounds i (err_gp (fst x) (snd x))) (combine (used_cov i) v).
+Definition fast_objective (i : cn_inst) (F : list cstruct) (v : list (Z * Z)) : Q :=
+  (diff_coeff i * sumr (fun x => pce_coeff i (fst (fst x)) * Qabs' (err_gp (fst x) (snd x))) (combine (used_cov i) v) +
+   fit_coeff i * sumr (fun x => Qabs' (errg_gp (fst x) (snd x))) (combine (used_cov i) v) +
+   p_cn_pars (i_par i) * sumr (fun st => snd (snd st)) F)%Q.
+Definition ccandidates (c : consts) (i : cn_inst) : list (list cstruct) :=
+  candidates_of (map (compile c i) (complete_structs i)) (map (map (compile c i)) (default_extras i))
+                (map (compile c i) (pseudo_slots i)).
+Definition scored_fast (c : consts) (i : cn_inst) : list (Q * list slot) :=
+  flat_map (fun F => let sl := map fst F in
+                     if form_ok i sl then
+                       let v := vsum i F in
+                       if fast_bounds_ok i v then [(Qred (fast_objective i F v), sl)] else []
+                     else []) (ccandidates c i).
 
 (* ---- solutions(): best first, cut every superset of a yielded active set ---- *)
 Definition subset (A B : list slot) : bool := forallb (has B) A.
-Fixpoint argmin (l : list (Q * form)) : option (Q * form) :=
+Fixpoint argmin (l : list (Q * list slot)) : option (Q * list slot) :=
   match l with
   | [] => None
   | x :: t => match argmin t with
@@ -74,38 +111,45 @@ Fixpoint argmin (l : list (Q * form)) : option (Q * form) :=
 Definition accept (c : consts) (gap best o : Q) : bool :=
   let ub := ((1 + gap) * best)%Q in
   negb (Qleb (c_solver_precision c) (Qabs' (o - ub)) && Qltb ub o).
-Definition not_cut (F0 : form) (x : Q * form) : bool := negb (subset (map fst F0) (map fst (snd x))).
-Fixpoint cut_loop (fuel : nat) (c : consts) (gap : Q) (best : option Q) (rem : list (Q * form)) : list (Q * form) :=
+Definition not_cut (F0 : list slot) (x : Q * list slot) : bool := negb (subset F0 (snd x)).
+(* the candidates solutions() can reach: objective inside the gap of the optimum *)
+Definition within (c : consts) (gap : Q) (sc : list (Q * list slot)) : list (Q * list slot) :=
+  match argmin sc with
+  | Some (m, _) => filter (fun x => accept c gap m (fst x)) sc
+  | None => []
+  end.
+Fixpoint cut_loop (fuel : nat) (rem : list (Q * list slot)) : list (Q * list slot) :=
   match fuel with
   | O => []
   | S f =>
       match argmin rem with
       | None => []
-      | Some (o, F0) =>
-          let b := match best with Some b => b | None => o end in
-          if accept c gap b o then (o, F0) :: cut_loop f c gap (Some b) (filter (not_cut F0) rem) else []
+      | Some (o, F0) => (o, F0) :: cut_loop f (filter (not_cut F0) rem)
       end
   end.
-Definition yields (c : consts) (i : cn_inst) : list (Q * form) :=
-  let sc := scored c i in cut_loop (length sc) c (p_gap (i_par i)) None sc.
+Definition yields_of (c : consts) (i : cn_inst) (sc : list (Q * list slot)) : list (Q * list slot) :=
+  let w := within c (p_gap (i_par i)) sc in cut_loop (length w) w.
+Definition yields (c : consts) (i : cn_inst) : list (Q * list slot) := yields_of c i (scored c i).
 
 (* ---- folding (cn.py:271-276): names of the active slots without the deletion allele and PSEUDO, sorted ---- *)
 Fixpoint insert_name (n : str) (l : list str) : list str :=
   match l with [] => [n] | m :: t => if str_ltb m n then m :: insert_name n t else n :: l end.
 Definition sort_names (l : list str) : list str := fold_right insert_name [] l.
 Definition visible (i : cn_inst) (n : str) : bool := negb (is_del_name i n) && negb (str_eqb n PSEUDO).
-Definition fold_form (i : cn_inst) (F : form) : list str :=
-  sort_names (filter (visible i) (map (fun st => fst (fst st)) F)).
+Definition fold_form (i : cn_inst) (F : list slot) : list str := sort_names (filter (visible i) (map fst F)).
 Definition names_eqb (a b : list str) : bool :=
   Nat.eqb (length a) (length b) && forallb (fun p => str_eqb (fst p) (snd p)) (combine a b).
-Fixpoint collect (i : cn_inst) (ys : list (Q * form)) (acc : list (list str * Q)) : list (list str * Q) :=
+Fixpoint collect (i : cn_inst) (ys : list (Q * list slot)) (acc : list (list str * Q)) : list (list str * Q) :=
   match ys with
   | [] => acc
   | (o, F) :: t =>
       let k := fold_form i F in
       if existsb (fun e => names_eqb (fst e) k) acc then collect i t acc else collect i t (acc ++ [(k, o)])
   end.
-Definition solve_cn (c : consts) (i : cn_inst) : list (list str * Q) := collect i (yields c i) [].
+Definition solve_from (c : consts) (i : cn_inst) (sc : list (Q * list slot)) : list (list str * Q) :=
+  collect i (yields_of c i sc) [].
+Definition solve_cn (c : consts) (i : cn_inst) : list (list str * Q) := solve_from c i (scored c i).
+Definition solve_cn_fast (c : consts) (i : cn_inst) : list (list str * Q) := solve_from c i (scored_fast c i).
 
 (* best explanation of every admissible structure: (folded names, least objective over its feasible forms) *)
 Fixpoint table_add (k : list str) (o : Q) (t : list (list str * Q)) : list (list str * Q) :=
@@ -113,35 +157,42 @@ Fixpoint table_add (k : list str) (o : Q) (t : list (list str * Q)) : list (list
   | [] => [(k, o)]
   | (k', o') :: r => if names_eqb k k' then (k', Qmin' o o') :: r else (k', o') :: table_add k o r
   end.
-Definition best_table (c : consts) (i : cn_inst) : list (list str * Q) :=
-  fold_left (fun t x => table_add (fold_form i (snd x)) (fst x) t) (scored c i) [].
+Definition best_table_from (i : cn_inst) (sc : list (Q * list slot)) : list (list str * Q) :=
+  fold_left (fun t x => table_add (fold_form i (snd x)) (fst x) t) sc [].
+Definition best_table (c : consts) (i : cn_inst) : list (list str * Q) := best_table_from i (scored c i).
 
 (* ---- harness-only: is the outcome sensitive to perturbations below the comparison tolerance? ---- *)
 Definition close (tol a b : Q) : bool := Qleb (Qabs' (a - b)) tol.
-Fixpoint loop_amb (fuel : nat) (c : consts) (tol gap : Q) (best : option Q) (rem : list (Q * form)) : bool :=
+Fixpoint loop_amb (fuel : nat) (tol : Q) (rem : list (Q * list slot)) : bool :=
   match fuel with
   | O => false
   | S f =>
       match argmin rem with
       | None => false
       | Some (o, F0) =>
-          let b := match best with Some b => b | None => o end in
-          let ub := ((1 + gap) * b + c_solver_precision c)%Q in
-          close tol o ub ||
-          if accept c gap b o then
-            existsb (fun x => close tol (fst x) o && negb (subset (map fst (snd x)) (map fst F0)) &&
-                              (subset (map fst F0) (map fst (snd x)) ||
-                               existsb (fun y => subset (map fst (snd x)) (map fst (snd y)) && not_cut F0 y) rem)) rem
-            || loop_amb f c tol gap (Some b) (filter (not_cut F0) rem)
-          else false
+          existsb (fun x => close tol (fst x) o && xorb (subset F0 (snd x)) (subset (snd x) F0)) rem
+          || loop_amb f tol (filter (not_cut F0) rem)
       end
   end.
-Definition near_bounds (i : cn_inst) (tol : Q) : bool :=
+Definition near_threshold (c : consts) (gap tol : Q) (sc : list (Q * list slot)) : bool :=
+  match argmin sc with
+  | Some (m, _) => existsb (fun x => close tol (fst x) ((1 + gap) * m + c_solver_precision c)%Q) sc
+  | None => false
+  end.
+Definition near_bounds (c : consts) (i : cn_inst) (tol : Q) : bool :=
   existsb (fun F => form_ok i (map fst F) &&
-     existsb (fun rc => close tol (Qabs' (errg_of F rc)) (p_cn_max (i_par i)) || close tol (Qabs' (err_of F rc)) (p_cn_max (i_par i)))
-             (used_cov i)) (candidates i).
-Definition ambiguous (c : consts) (i : cn_inst) (tol : Q) : bool :=
-  near_bounds i tol || let sc := scored c i in loop_amb (length sc) c tol (p_gap (i_par i)) None sc.
+     existsb (fun x => close tol (Qabs' (errg_gp (fst x) (snd x))) (p_cn_max (i_par i)) ||
+                       close tol (Qabs' (err_gp (fst x) (snd x))) (p_cn_max (i_par i)))
+             (combine (used_cov i) (vsum i F))) (ccandidates c i).
+Definition ambiguous_from (c : consts) (i : cn_inst) (tol : Q) (sc : list (Q * list slot)) : bool :=
+  near_bounds c i tol || near_threshold c (p_gap (i_par i)) tol sc ||
+  let w := within c (p_gap (i_par i)) sc in loop_amb (length w) tol w.
+(* everything the harness needs from one instance, sharing the scored list *)
+Definition harness_eval (c : consts) (i : cn_inst) (tol : Q) (want_table : bool) : out :=
+  let sc := scored_fast c i in
+  OL [ o_list (fun e => OL [o_list o_str (fst e); o_q (snd e)]) (solve_from c i sc);
+       o_bool (ambiguous_from c i tol sc);
+       if want_table then o_list (fun e => OL [o_list o_str (fst e); o_q (snd e)]) (best_table_from i sc) else OL [] ].
 
 (* ---- estimate_cn (cn.py:46-103) ---- *)
 Inductive cn_res :=
@@ -226,7 +277,7 @@ Definition low_coverage (e : est_inst) (i : cn_inst) : option bool :=
   | None => None
   end.
 
-Definition estimate_cn (c : consts) (e : est_inst) : cn_res :=
+Definition estimate_cn_with (solver : cn_inst -> list (list str * Q)) (e : est_inst) : cn_res :=
   match e_user e with
   | _ :: _ => parse_user (e_gene_configs e) (e_user e)
   | [] =>
@@ -240,12 +291,15 @@ Definition estimate_cn (c : consts) (e : est_inst) : cn_res :=
         | Some i =>
             match low_coverage e i with
             | Some true => ErrLowCov
-            | Some false => if inst_ok i then Sols (solve_cn c i) else ErrOther
+            | Some false => if inst_ok i then Sols (solver i) else ErrOther
             | None => ErrOther
             end
         | None => ErrOther
         end
   end.
+
+Definition estimate_cn (c : consts) (e : est_inst) : cn_res := estimate_cn_with (solve_cn c) e.
+Definition estimate_cn_fast (c : consts) (e : est_inst) : cn_res := estimate_cn_with (solve_cn_fast c) e.
 
 (* ---- encoders ---- *)
 Definition o_sols (l : list (list str * Q)) : out := o_list (fun e => OL [o_list o_str (fst e); o_q (snd e)]) l.
@@ -257,5 +311,5 @@ Definition o_res (r : cn_res) : out :=
   | ErrOther => OL [OZ 3]
   end.
 Definition o_slot (x : slot) : out := OL [o_str (fst x); OZ (snd x)].
-Definition o_yields (l : list (Q * form)) : out :=
-  o_list (fun y => OL [o_q (fst y); o_list (fun st => o_slot (fst st)) (snd y)]) l.
+Definition o_yields (l : list (Q * list slot)) : out :=
+  o_list (fun y => OL [o_q (fst y); o_list o_slot (snd y)]) l.
